@@ -18,10 +18,19 @@ KEYS = ['k', 'm', 'n', 'a.b', 'x y', 0, 1, -2]
 STR_KEYS = ['k', 'm', 'n', 'p', 'q']
 
 
-def build(d, symbolic=False):
-  """Builds the Python value of a descriptor."""
+def build(d, symbolic=False, hooks=None):
+  """Builds the Python value of a descriptor.
+
+  `hooks` (optional, implies symbolic containers) customises construction:
+  hooks.list(items) / hooks.dict(items) return the container, hooks.cls(name)
+  maps a class name of the family to the class to instantiate.
+  """
+  if hooks is not None:
+    symbolic = True
   if isinstance(d, list):
-    v = [build(x, symbolic) for x in d]
+    v = [build(x, symbolic, hooks) for x in d]
+    if hooks is not None:
+      return hooks.list(v)
     return pg.List(v) if symbolic else v
   if isinstance(d, dict):
     if '$d' in d:
@@ -31,16 +40,21 @@ def build(d, symbolic=False):
                 and isinstance(kv[0], (str, int)) and not isinstance(kv[0], bool)
                 and kv[0] != ''):
           raise core.InvalidCase(d)
-        v[kv[0]] = build(kv[1], symbolic)
+        v[kv[0]] = build(kv[1], symbolic, hooks)
+      if hooks is not None:
+        return hooks.dict(v)
       return pg.Dict(v) if symbolic else v
     if '$o' in d:
       cls = classes.CLASSES.get(d['$o'])
       if cls is None or not isinstance(d.get('a', {}), dict):
         raise core.InvalidCase(d)
-      kw = {k: build(x, symbolic) for k, x in d.get('a', {}).items()}
-      if cls is classes.Req and 'r' not in kw:
+      kw = {k: build(x, symbolic, hooks) for k, x in d.get('a', {}).items()}
+      base_cls = cls
+      if hooks is not None:
+        cls = hooks.cls(d['$o']) or cls
+      if base_cls is classes.Req and 'r' not in kw:
         return cls.partial(**kw)
-      if cls in (classes.Typed, classes.Req):
+      if base_cls in (classes.Typed, classes.Req):
         try:
           if _has_partial(d.get('a', {})):
             # a field value that is itself partial: build an explicitly partial object
@@ -50,12 +64,12 @@ def build(d, symbolic=False):
           raise core.InvalidCase(d) from e
       return cls(**kw)
     if '$ref' in d:
-      return pg.Ref(build(d['$ref'], not d.get('plain')))
+      return pg.Ref(build(d['$ref'], not d.get('plain')))   # (hooks do not reach into references)
     if '$hyper' in d:
       kind, arg = d['$hyper'], d.get('c', [])
       if not isinstance(arg, list):
         raise core.InvalidCase(d)
-      cands = [build(x, symbolic) for x in arg] or [0, 1]
+      cands = [build(x, symbolic, hooks) for x in arg] or [0, 1]
       if kind == 'oneof':
         return pg.oneof(cands)
       if kind == 'manyof':
@@ -79,7 +93,7 @@ def build(d, symbolic=False):
     if '$t' in d:
       if not isinstance(d['$t'], list):
         raise core.InvalidCase(d)
-      return tuple(build(x, symbolic) for x in d['$t'])
+      return tuple(build(x, symbolic, hooks) for x in d['$t'])
     if '$q' in d:
       return classes.Opaque(d['$q'])
     raise core.InvalidCase(d)
